@@ -57,7 +57,9 @@ SvcNameSet == IF XQ THEN {Services[n].name : n \in 1..Len(Services)} ELSE {"a1.s
 RichP(k) == Rich \/ k \in RichSel
 NickPool  == IF RichP("data") THEN {<<"n1", 5>>, <<"nb", 30>>, <<"nc", 31>>, <<"nd", 45>>} ELSE {<<"n1", 5>>}
 HostPool  == IF RichP("data") THEN {<<"h1", 12>>, <<"hb", 63>>, <<"hc", 64>>, <<"hd", 80>>} ELSE {<<"h1", 12>>}
-IdentPool == IF RichP("data") THEN {<<"i1", 4>>, <<"ib", 10>>, <<"ic", 11>>, <<"id", 15>>} ELSE {<<"i1", 4>>}
+\* "~.." = an ident answer that is itself marked untrusted (a trust_username rule of iauth_class upgrades it)
+IdentPool == IF RichP("data") THEN {<<"i1", 4>>, <<"ib", 10>>, <<"ic", 11>>, <<"id", 15>>, <<"~j1", 6>>}
+             ELSE IF "tilde" \in RichSel THEN {<<"i1", 4>>, <<"~j1", 6>>} ELSE {<<"i1", 4>>}
 \* <<text, starts with ~>>
 UserPool  == IF RichP("data") THEN {<< <<"c1", 6>>, 0>>, << <<"cb", 9>>, 0>>, << <<"cc", 10>>, 0>>, << <<"cd", 13>>, 0>>,
                            << <<"~e", 8>>, 1>>, << <<"~f", 10>>, 1>>, << <<"~g", 12>>, 1>>}
@@ -209,6 +211,7 @@ NoRich == {}
 RichData == {"data", "shapes"}
 RichReply == {"reply"}
 RichModes == {"modes", "shapes"}
+RichTilde == {"tilde"}
 NoScript == << >>
 \* straight-line scripts: one client, every data item in one of a few orders, then replies
 ScriptData1 == << {"C"}, {"N", "d"}, {"u", "u0"}, {"n"}, {"U"}, {"P"} >>
